@@ -1793,7 +1793,7 @@ type fdScn struct {
 	Steps []string `json:"steps"`
 }
 
-var fdStepKinds = []string{"dial-family", "dial-bindfail", "dial-unix-bindfail", "dial-regfail", "dial-tcp", "dial-unix", "dial-refused", "dial-timeout", "server-tcp", "server-unix", "fdconn", "detach", "manager", "listener-create", "concurrent-close"}
+var fdStepKinds = []string{"dial-family", "dial-bindfail", "dial-unix-bindfail", "dial-regfail", "dial-tcp", "dial-unix", "dial-refused", "dial-timeout", "server-tcp", "server-unix", "server-prepare-close", "server-prepare-detach", "fdconn", "detach", "manager", "listener-create", "concurrent-close"}
 
 func censusKinds() map[string]int {
 	m := map[string]int{}
@@ -1810,7 +1810,7 @@ func censusKinds() map[string]int {
 	return m
 }
 
-func runFDStep(kind string) string {
+func runFDStep(kind string) (msg string) {
 	switch kind {
 	case "dial-tcp", "dial-unix":
 		nw := "tcp4"
@@ -1933,7 +1933,7 @@ func runFDStep(kind string) string {
 			c.Close()
 		}
 		cl()
-	case "server-tcp", "server-unix":
+	case "server-tcp", "server-unix", "server-prepare-close", "server-prepare-detach":
 		nw := "tcp4"
 		if kind == "server-unix" {
 			nw = "unix"
@@ -1942,6 +1942,44 @@ func runFDStep(kind string) string {
 		if err != nil {
 			return ""
 		}
+		// the prepare variants: OnPrepare closes the accepted connection, or detaches it (the descriptor is then
+		// the application's: netpoll must not close it; it is identified by its inode, closed by us at the end)
+		type detached struct {
+			fd  int
+			ino uint64
+		}
+		var dmu sync.Mutex
+		var dets []detached
+		var popts []Option
+		if kind == "server-prepare-close" {
+			popts = append(popts, WithOnPrepare(func(conn Connection) context.Context { conn.Close(); return context.Background() }))
+		} else if kind == "server-prepare-detach" {
+			popts = append(popts, WithOnPrepare(func(conn Connection) context.Context {
+				c := conn.(*connection)
+				var st syscall.Stat_t
+				fd := c.Fd()
+				if c.Detach() == nil && syscall.Fstat(fd, &st) == nil {
+					dmu.Lock()
+					dets = append(dets, detached{fd, st.Ino})
+					dmu.Unlock()
+				}
+				return context.Background()
+			}))
+		}
+		defer func() {
+			dmu.Lock()
+			defer dmu.Unlock()
+			for _, d := range dets {
+				var st syscall.Stat_t
+				if err := syscall.Fstat(d.fd, &st); err != nil || st.Ino != d.ino {
+					if msg == "" {
+						msg = fmt.Sprintf("descriptor %d was detached in OnPrepare and belongs to the application, but netpoll closed it (fstat now: %v, inode %d, was %d)", d.fd, err, st.Ino, d.ino)
+					}
+					continue
+				}
+				syscall.Close(d.fd)
+			}
+		}()
 		evl, _ := NewEventLoop(func(ctx context.Context, conn Connection) error {
 			n := conn.Reader().Len()
 			p, _ := conn.Reader().Next(n)
@@ -1950,7 +1988,7 @@ func runFDStep(kind string) string {
 			conn.Reader().Release()
 			conn.Writer().Flush()
 			return nil
-		})
+		}, popts...)
 		done := make(chan error, 1)
 		go func() { done <- evl.Serve(nl) }()
 		dn := "tcp"
@@ -1961,8 +1999,14 @@ func runFDStep(kind string) string {
 		for i := 0; i < 3; i++ {
 			if c, err := net.DialTimeout(dn, addr, time.Second); err == nil {
 				c.Write([]byte("hello"))
-				c.SetReadDeadline(time.Now().Add(5 * time.Second))
-				io.ReadFull(c, make([]byte, 5))
+				if kind == "server-tcp" || kind == "server-unix" {
+					c.SetReadDeadline(time.Now().Add(5 * time.Second))
+					io.ReadFull(c, make([]byte, 5))
+				} else {
+					// nobody answers: wait until the server side has dealt with the connection
+					c.SetReadDeadline(time.Now().Add(200 * time.Millisecond))
+					c.Read(make([]byte, 1))
+				}
 				cs = append(cs, c)
 			}
 		}
